@@ -47,3 +47,30 @@ func harnessC03ForwardResponder() {
 	verif_assert(err == nil, "C03/forward-ack-key-refused")
 	verif_assert(crypto.DeriveSessionKey(s, reqID, ipub, c03AckPub, true).Key() == ac.sessionKey.Key(), "C03/forward-key-differs-from-ingress-key")
 }
+
+// an all-zero or low-order remote key (ComputeECDH refuses it) is reported and
+// leaves no tunnel and no key behind; every other key gets exactly one ack
+func harnessC03ForwardDegenerate() {
+	h := NewHandler(HandlerConfig{Endpoints: []Endpoint{{Key: "k", Target: "t:1"}}}, identity.AgentID{1}, c20Writer{})
+	h.Start()
+	c03DialConn = &c03Conn{}
+	c03Acks, c20Errs = 0, 0
+	// arbitrary remote key: all-zero, or a point whose (uninterpreted) product may be the zero secret
+	var k [crypto.KeySize]byte
+	k[0], k[31] = verif_nondet_u8(), verif_nondet_u8()
+	h.HandleStreamOpen(context.Background(), 5, verif_nondet_u64(), identity.AgentID{2}, "k", k)
+	verif_drain()
+	c03DialConn = nil
+	verif_reach("C03/forward-degenerate")
+	h.mu.RLock()
+	ac := h.connections[5]
+	h.mu.RUnlock()
+	verif_assert(c03Acks+c20Errs == 1, "C03/forward-open-answered-other-than-exactly-once")
+	if c20Errs > 0 {
+		verif_reach("C03/forward-degenerate-refused")
+		verif_assert(c03Acks == 0 && ac == nil, "C03/forward-tunnel-kept-after-refused-key-agreement")
+	}
+	if k == ([crypto.KeySize]byte{}) {
+		verif_assert(c20Errs == 1 && ac == nil, "C03/forward-accepted-all-zero-remote-key")
+	}
+}
